@@ -86,7 +86,8 @@ impl ResponseOutputFormat {
                         .join(",")
                 };
 
-                if !errors.is_empty() {
+                // never replace an error that is already part of the response
+                if !errors.is_empty() && response.get("error").is_none() {
                     response["error"] = json![{"csv": json![errors]}];
                 }
                 Ok(row)
